@@ -286,7 +286,14 @@ func c05Chain(lang string) {
 	g.Names = []string{"Bar", "Baz"}
 	g.Nullable, g.Required = false, false
 	g.Leaves = symir.KScalar | symir.KRef | symir.KEnum | symir.KConstRef
+	// aliases: Al -> string, Al2 -> Al (an alias of an alias), AlArr -> []string
+	g.RefNames = []string{"Bar", "Baz", "Al", "Al2", "AlArr"}
+	g.ConstRefNames = []string{"En"} // constant references denote members of an enum object
 	in := c06Input(g, c06Depth())
+	in[0].AddObject(ast.NewObject("p", "En", ast.NewEnum([]ast.EnumValue{{Type: ast.String(), Name: "x", Value: "x"}, {Type: ast.String(), Name: "y", Value: "y"}})))
+	in[0].AddObject(ast.NewObject("p", "Al", ast.String()))
+	in[0].AddObject(ast.NewObject("p", "Al2", ast.NewRef("p", "Al")))
+	in[0].AddObject(ast.NewObject("p", "AlArr", ast.NewArray(ast.String())))
 	if v.Bool("entrypoint") {
 		in[0].EntryPoint = "Foo"
 		in[0].EntryPointType = ast.NewRef("p", "Foo")
@@ -294,13 +301,23 @@ func c05Chain(lang string) {
 	v.Assume(symir.AllResolve(in))
 	v.Observe(in)
 	foo, _ := in.LocateObject("p", "Foo")
-	v.Excuse("entrypoint-object-inlined", lang == "php" && in[0].EntryPoint == "Foo" && foo.Type.Kind != ast.KindStruct && foo.Type.Kind != ast.KindEnum && foo.Type.Kind != ast.KindRef)
+	fooResolved := in.ResolveToType(foo.Type)
+	v.Excuse("entrypoint-object-inlined", lang == "php" && in[0].EntryPoint == "Foo" &&
+		(fooResolved.Kind == ast.KindScalar || fooResolved.Kind == ast.KindArray || fooResolved.Kind == ast.KindMap || fooResolved.Kind == ast.KindDisjunction))
+	fooTarget := ast.Type{}
+	if foo.Type.Kind == ast.KindRef {
+		if t, ok := in.LocateObject(foo.Type.Ref.ReferredPkg, foo.Type.Ref.ReferredType); ok {
+			fooTarget = t.Type
+		}
+	}
+	v.Excuse("java-alias-of-array-removed", lang == "java" && in[0].EntryPoint == "Foo" && fooTarget.Kind == ast.KindArray)
 	out, err := chainOf(lang).Process(in)
 	if err != nil {
 		v.Reach("chain returned an error")
 		return
 	}
 	v.Observe(out)
+	v.Observe(symir.CollectSchemas(out))
 	v.Assert(symir.AllResolve(out), "C05: the language's chain turned a resolving reference (or mapping target, or entry point) into a dangling one")
 	// builder targets
 	for _, b := range (&ast.BuilderGenerator{}).FromAST(out) {
